@@ -419,6 +419,15 @@ func (hr *histRec) add(o hop) { hr.ops = append(hr.ops, o) }
 // linearizable searches for an order of the operations (Unsubscribe split in cut+detach) that is
 // compatible with real-time precedence and per-thread order and reproduces every observer's trace.
 func linearizable(k subjKind, nrec int, pre []sop, ops []hop, traces [][]h.Ev) (bool, string) {
+	return linearizableOpt(k, nrec, pre, ops, traces, false)
+}
+
+// linearizableOpt: with perObserver set, real-time precedence between operations that concern two
+// different observers only (Unsubscribe i vs Unsubscribe j / Subscribe j) is not enforced. A history that
+// is linearizable only under this relaxation is explained by a broadcast that reaches its observers one
+// after the other while an individual Unsubscribe cuts in between (the broadcast is not atomic with
+// respect to unsubscriptions of different observers).
+func linearizableOpt(k subjKind, nrec int, pre []sop, ops []hop, traces [][]h.Ev, perObserver bool) (bool, string) {
 	type event struct {
 		o      sop
 		opIdx  int
@@ -444,6 +453,9 @@ func linearizable(k subjKind, nrec int, pre []sop, ops []hop, traces [][]h.Ev) (
 			return !a.second && b.second
 		}
 		oa, ob := ops[a.opIdx], ops[b.opIdx]
+		if perObserver && (oa.op.op == "U" || ob.op.op == "U") && (oa.op.op == "U" || oa.op.op == "S") && (ob.op.op == "U" || ob.op.op == "S") && oa.op.arg != ob.op.arg {
+			return false
+		}
 		if oa.rt < ob.call {
 			return true
 		}
@@ -599,11 +611,15 @@ func c10Concurrent(tier string) []fw.Scenario {
 										lin, m := linearizable(k, nrec, pre, hist.ops, traces)
 										if lin {
 											m = ""
+										} else if weak, _ := linearizableOpt(k, nrec, pre, hist.ops, traces, true); weak {
+											m = "PER-OBSERVER " + m
 										}
 										msg = m
 										memo[key] = msg
 									}
-									if msg != "" {
+									if strings.HasPrefix(msg, "PER-OBSERVER ") {
+										out = append(out, fw.V("concurrent/"+k.name+"/broadcast-not-atomic-across-observers/unsubscribe-order", "linearizable only if the real-time order between operations on different observers is ignored: "+strings.TrimPrefix(msg, "PER-OBSERVER ")))
+									} else if msg != "" {
 										out = append(out, fw.V("concurrent/"+k.name+"/not-linearizable/"+linClass(ta, tb, tc), msg))
 									}
 									return out
